@@ -59,11 +59,16 @@ def eval_seed(sid, base, props_mode, tier):
     v, r = os.path.join(d, "verif"), os.path.join(d, "repo")
     res = {"seed": sid, "property": target, "checks": {}}
     try:
-        sh(["rsync", "-a", "--exclude", "replays", "--exclude", ".git", "--exclude", "seeded", ROOT + "/", v + "/"])
-        for f in os.listdir(os.path.join(v, ".work")):
-            p = os.path.join(v, ".work", f)
-            if os.path.isdir(p):
-                shutil.rmtree(p, ignore_errors=True)
+        # the COMMITTED state of /verif (edits in progress in the live tree must not leak into the measurement), plus the
+        # build outputs of the live tree to save time (lake / go rebuild whatever differs)
+        os.makedirs(v)
+        sh("git -C %s archive HEAD | tar -x -C %s" % (ROOT, v))
+        shutil.rmtree(os.path.join(v, "seeded"), ignore_errors=True)
+        sh(["rsync", "-a", os.path.join(ROOT, "lean", ".lake"), os.path.join(v, "lean") + "/"])
+        os.makedirs(os.path.join(v, ".work"), exist_ok=True)
+        for f in ("svh", "svh-race", "extract"):
+            if os.path.exists(os.path.join(ROOT, ".work", f)):
+                shutil.copy2(os.path.join(ROOT, ".work", f), os.path.join(v, ".work", f))
         sh(["git", "-C", "/repo", "worktree", "add", "-q", "--detach", r, "HEAD"])
         rc, out = sh(["git", "apply", os.path.join(sd, "patch.diff")], cwd=r)
         if rc != 0:
